@@ -1,5 +1,7 @@
 -- GENERATED from /repo by /verif/vlib/translate on every run. Do not edit.
+import Dcg.Model.GraphqlOrder
 namespace Dcg.Gen.GraphqlTables
+open Dcg.Model.GraphqlOrder
 
 /-- model/scalar.py DEFAULT_GRAPHQL_SCALAR_TYPES (GraphQL scalar name, Python type) -/
 def defaultScalarTypes : List (String × String) :=
@@ -29,5 +31,18 @@ def typenameField : List (String × String) :=
 
 /-- type names _resolve_types skips -/
 def skippedTypeNames : List String := ["Mutation", "Query"]
+
+/-- model/template/Union.jinja2: the `if` tree and every `{{ … }}` site with its Python lexical state -/
+def unionTemplate : UTpl :=
+  (.ite (.var "description") (.site (.other "in a loop over Call(description.splitlines)") .comment .done) .done (.ite (.lenGt 1) (.site .className .code (.site .eachMember .str .done)) (.site .className .code (.site .firstMember .code .done)) .done))
+
+/-- identifiers in the literal text of Union.jinja2 that are in code -/
+def unionLiteralNames : List String := ["TypeAlias", "Union"]
+
+/-- the names DataTypeUnion.DEFAULT_IMPORTS binds -/
+def unionDefaultImports : List String := ["TypeAlias", "Union"]
+
+/-- template variables parse_union sets in extra_template_data[<union name>] (variable, parser option) -/
+def unionTemplateVars : List (String × String) := []
 
 end Dcg.Gen.GraphqlTables
